@@ -52,6 +52,16 @@ STRENGTHENED = {
  'C18_6': 'missed at first (pre-states with at most N leaders) -> pre-states with more leaders than the population size (size option lowered since the last generation)',
  'C19_6': 'missed at first (train_step fixed per run) -> train_step switched in the middle of a request sequence',
  'C20_6': 'missed at first (all points had distinct ids) -> points that carry the same id (from_dict / deepcopy) with different vectors',
+ 'C02_7': 'missed at first (at most 2 objectives in the quick tier, 3 in the thorough tier) -> populations of 2-3 individuals with 4, 5 (6) objectives',
+ 'C03_7': 'missed by the quick tier at first (populations of at most 4; the thorough tier with 5 caught it) -> `trunc-large-*`: populations of 6, 9 and 13 with one or two symbolic members and small truncation sizes',
+ 'C04_7': 'missed by the quick tier at first (archives of at most 4 members; the thorough tier with 6 caught it) -> `step-staircase-*`: concrete staircases of 6, 7, 9 mutually non-dominated members, symbolic newcomer',
+ 'C05_7': 'missed, then inconclusive (at most 2 objectives; `np.copysign` has no object loop) -> 4, 5 and 7 objectives; copysign / sign in the numpy shim',
+ 'C10_7': 'missed at first (at most 3 individuals per store) -> stores with 9, 14 (11, 23) individuals, only the first carrying solver choices',
+ 'C14_7': 'missed at first (batches of at most 2 designs) -> one batch of up to 8 (6, 4) designs for 1 (2, 3) parameters',
+ 'C16_7': 'missed at first (DTLZ1 with at most 3 / 5 objectives) -> DTLZ1 with 6, 7 (9) objectives',
+ 'C17_7': 'missed at first (the distance kernel of gd is SciPy C code, checked by contract on <= 3 reference points) -> concrete reference fronts of 11, 12, 40 and 150 points; the spatial stub forwards what it does not model',
+ 'C18_7': 'missed at first (personal best with at most 2 objectives) -> 4 and 5 objectives',
+ 'C19_7': 'missed at first (train_step <= 3, at most 4 / 7 requests) -> scripted accept/decline patterns of 14-25 requests with train_step 4, 5, 7 (values symbolic)',
  'C20_4': 'inconclusive at first (`hash(point)` inside the library hit the int-only builtin) -> shim calls the real `__hash__`; the real CPython collision hash(-1.0) == hash(-2.0) as model-selection hint so that the counterexample replays',
 }
 print('| seed | change (abridged) | needs | verdict of the check(s) on the patched tree | note |')
